@@ -484,6 +484,9 @@ def main():
             chosen = None
             for r0 in pref[:4]:
                 wit, vtext = get_witness(u, j, c, workdir, r0['property'])
+                if wit is None and j.get('replay_exhaustive'):
+                    # the replayer sweeps a finite domain itself (stated in the job) and needs no input from the verifier
+                    wit = dict(bufs={}, vals={}); vtext += ' | replayer sweeps: ' + j['replay_exhaustive']
                 rpath = os.path.join(rdir, '%s.%s.%s.json' % (u['name'], j['name'], r0['property']))
                 rep = dict(property=prop, unit=u['name'], job=j['name'], function=j.get('enforce'),
                            obligation=r0['property'], description=r0['description'],
